@@ -45,7 +45,7 @@ def run(ck):
     # ---- R: real pairs
     n = 250 if quick else 6000
     progs = []
-    for fam, k in (("dce", n), ("random", n // 2), ("smoke", 0)):
+    for fam, k in (("dce", n), ("random", n // 2), ("smoke", 0), ("shapes", 600 if quick else 0)):
         for p in semlib.generate(ck, fam, k):
             p["id"] = len(progs) + 1
             p["family"] = fam
